@@ -49,7 +49,7 @@ LEVEL_TEXT = ("Proof for 2Sum and Fast2Sum (with and without fix_overflow): (1) 
               "every partial product and partial sum is shown representable. (3) Refinement theorem soft_refines_rational: for EVERY program of the arithmetic/comparison/select "
               "fragment, every format and input, the bit-exact softfloat run refines the run over Q with round-to-nearest-even whenever all float nodes are finite; through it "
               "Dekker's product is exact ON BIT PATTERNS for the regenerated mul_dekker in float16/32/64 (dekker_bit_exact_*) and, with its DEFAULT options (dekker_default_bit_exact_f16/f32/f64). mul_dekker(fix_overflow=True) keeps the exact pair whenever |xh*yh| does not exceed the largest finite value (dekker_product_fix_overflow, ties_dekker_fix). split_veltkamp(scale=True) satisfies the same statement for every normal |x| <= x_max (veltkamp_split_scaled, ties_split_scaled: scaling by 2^-t and back is exact). mul_dekker with its default options (scale=True) is exact for normal |x|, |y| <= x_max (dekker_product_scaled, ties_dekker_scaled). The copies (apmath two_sum / quick_two_sum / split / two_prod; the algorithms.py and utils.py copies) return, for EVERY input pattern, the same bit patterns as the functions above (copies_agree_f16/32/64), so the theorems hold for them too. scale=True with fix_overflow=True likewise (dekker_product_scaled_fix_overflow): the whole option matrix of mul_dekker is covered. The apmath and algorithms.py copies (they carry "
-              "non-finite constants and selects) over Q are decided by exact-rational search on the real functions (bit level: copies_agree). UNCONDITIONAL ON EXPLICIT BOXES (Props/C10Total.lean): a verified overflow analyser (Models/Overflow.lean: per node an exponent k with |value| <= 2^k in the Q-run, from exponent bounds on the inputs; sound because powers of two are representable and rounding is monotone, Lemmas/OverflowSound.lean) + the forward refinement theorem (if the Q-run stays within +-Lmax the bit-exact run exists and is finite everywhere) + the no-overflow lemmas add/sub/mul/div_finite turn 'whenever no node overflows' into a kernel-evaluated check (overflow_checks): twosum_total_f16/f32/f64 — for ALL finite patterns with |x|,|y| <= 2^10 / 2^122 / 2^1018 the run of add_2sum exists, is finite, and value(s) = RNE(x+y), value(s)+value(t) = x+y; dekker_total_f32/f64 — for all normal patterns with |x|,|y| <= 2^46 / 2^479 and ex+ey >= emin the run of mul_dekker exists, is finite, and h = RNE(xy), h + l = xy. Subnormal operands: the unscaled splitters are exact on EVERY representable x including subnormals and zero (veltkamp_split_every_finite: veltkamp_gen is proved on the 2^emin lattice), and the unscaled Dekker product is exact with subnormal operands under the one documented condition ex + ey >= emin (dekker_product_subnormal_operands); for the scaled variants subnormal operands are decided by search.")
+              "non-finite constants and selects) over Q are decided by exact-rational search on the real functions (bit level: copies_agree). UNCONDITIONAL ON EXPLICIT BOXES (Props/C10Total.lean): a verified overflow analyser (Models/Overflow.lean: per node an exponent k with |value| <= 2^k in the Q-run, from exponent bounds on the inputs; sound because powers of two are representable and rounding is monotone, Lemmas/OverflowSound.lean) + the forward refinement theorem (if the Q-run stays within +-Lmax the bit-exact run exists and is finite everywhere) + the no-overflow lemmas add/sub/mul/div_finite turn 'whenever no node overflows' into a kernel-evaluated check (overflow_checks): twosum_total_f16/f32/f64 — for ALL finite patterns with |x|,|y| <= 2^10 / 2^122 / 2^1018 the run of add_2sum exists, is finite, and value(s) = RNE(x+y), value(s)+value(t) = x+y; dekker_total_f32/f64 — for all normal patterns with |x|,|y| <= 2^46 / 2^479 and ex+ey >= emin the run of mul_dekker exists, is finite, and h = RNE(xy), h + l = xy; fast2sum_total / split_total for float16/32/64; and, with the analyser made condition-aware (input lower bounds, known comparisons, select on a known condition: Props/C10ScaledTotal.lean), dekker_default_total_f32/f64 — mul_dekker with its DEFAULT options (scale=True) for ALL normal |x|,|y| <= 2^46 / 2^479 — and split_scaled_total_f32/f64 (|x| <= 2^111 / 2^992). Subnormal operands: the unscaled splitters are exact on EVERY representable x including subnormals and zero (veltkamp_split_every_finite: veltkamp_gen is proved on the 2^emin lattice), and the unscaled Dekker product is exact with subnormal operands under the one documented condition ex + ey >= emin (dekker_product_subnormal_operands); for the scaled variants subnormal operands are decided by search.")
 LEVEL_NOTE = ("Overflow excluded by hypothesis as the property words it. Softfloat == machine arithmetic is validated by a 3-way bit-level cross-check each run "
               "(and its add/sub/mul/div are proved correctly rounded). Splitter/Dekker: theorems for all option combinations on normal operands and for the unscaled variants also on subnormal operands; |x| > x_max and scaled variants on subnormal operands by search.")
 TECHNIQUE = "Lean 4 proof (Flocq-style FP theory over Q) on translator-regenerated DAGs + bit-level 3-way correspondence + exact-rational search"
